@@ -98,7 +98,7 @@ fn im_of(mode: u8) -> IM {
 }
 
 /// Apply the issued list to a module; returns the ids the library returned (per op, u32::MAX if none).
-fn apply<'a>(m: &mut wirm::Module<'a>, issued: &[Issued]) -> Vec<u32> {
+fn apply<'a>(m: &mut wirm::Module<'a>, issued: &[Issued]) -> Vec<(u32, u32)> {
     let mut ret = vec![];
     for is in issued {
         let tag = Tag::new(is.tag.clone());
@@ -130,7 +130,10 @@ fn apply<'a>(m: &mut wirm::Module<'a>, issued: &[Issued]) -> Vec<u32> {
                 if let Some(n) = name {
                     fb.set_name(n);
                 }
-                *fb.finish_module_with_tag(m, tag)
+                let fid = fb.finish_module_with_tag(m, tag);
+                let ty = *m.functions.get_type_id(fid);
+                ret.push((*fid, ty));
+                continue;
             }
             Op::Global { dt, mutable, value } => {
                 let v = match dt {
@@ -247,7 +250,7 @@ fn apply<'a>(m: &mut wirm::Module<'a>, issued: &[Issued]) -> Vec<u32> {
                 u32::MAX
             }
         };
-        ret.push(r);
+        ret.push((r, r));
     }
     ret
 }
@@ -449,7 +452,7 @@ fn gen_ops(g: &GenModule, raw: &sym::RawModule, rng: &mut Rng, with_special: boo
         let mut tag = format!("T{}:", uid).into_bytes();
         let nb = rng.below(6);
         tag.extend(rng.bytes(nb));
-        let choice = rng.below(if with_special { 15 } else { 14 });
+        let choice = *rng.pick(&[0usize, 1, 2, 3, 4, 5, 6, 7, 8, 9, 10, 11, 12, 13, 15, 16, if with_special { 14 } else { 11 }]);
         let op = match choice {
             0 => {
                 // a signature no base module has: 9+ parameters spelling the uid in binary
@@ -458,6 +461,32 @@ fn gen_ops(g: &GenModule, raw: &sym::RawModule, rng: &mut Rng, with_special: boo
                     params.push(if (uid >> b) & 1 == 1 { DataType::F32 } else { DataType::F64 });
                 }
                 Op::Type { params, results: vec![*rng.pick(&nums)] }
+            }
+            15 | 16 => {
+                // a request whose signature a type of the parsed module already has: de-duplicated, so nothing is added
+                let sigs: Vec<(Vec<DataType>, Vec<DataType>)> = g
+                    .types
+                    .iter()
+                    .filter_map(|t| match t {
+                        gen::TyInfo::Func(p, r) => {
+                            let pp: Option<Vec<DataType>> = p.iter().map(|t| crate::edit::vt_dt(*t)).collect();
+                            let rr: Option<Vec<DataType>> = r.iter().map(|t| crate::edit::vt_dt(*t)).collect();
+                            Some((pp?, rr?))
+                        }
+                        _ => None,
+                    })
+                    .collect();
+                if sigs.is_empty() {
+                    continue;
+                }
+                let (p, r) = rng.pick(&sigs).clone();
+                if choice == 15 {
+                    Op::Type { params: p, results: r }
+                } else if r.is_empty() && p.iter().all(|d| nums.contains(d)) {
+                    Op::Func { params: p, results: r, locals: vec![], body: ref_body(g, uid, rng), name: None }
+                } else {
+                    continue;
+                }
             }
             1 if !ftypes.is_empty() => Op::ImportFunc { name: format!("tf{}", uid), ty: *rng.pick(&ftypes) },
             2 => Op::ImportGlobal { name: format!("tg{}", uid), dt: *rng.pick(&nums), mutable: rng.bool() },
@@ -656,7 +685,7 @@ impl C23 {
         // ---- A: pull, then encode; B: encode only
         let bytes = g.bytes.to_vec();
         let iss = issued.clone();
-        type R = Result<(Vec<Rec>, Vec<u8>, Vec<u8>, Vec<u32>), (String, PanicInfo)>;
+        type R = Result<(Vec<Rec>, Vec<u8>, Vec<u8>, Vec<(u32, u32)>), (String, PanicInfo)>;
         let res: R = (|| {
             let mut a = match catch(|| wirm::Module::parse(&bytes, true)) {
                 Ok(Ok(m)) => m,
@@ -742,11 +771,32 @@ impl C23 {
                 o => kind_of(o).to_string(),
             };
             let all = by_tag.get(&is.tag).cloned().unwrap_or_default();
+            let n_base_types = raw_in.types.len() as u32;
+            // a tagged request that was de-duplicated against a type of the PARSED module added nothing: no record may carry its tag
+            if let Op::Type { .. } = &is.op {
+                if ret[k].1 < n_base_types {
+                    out.ob("type_request_deduplicated_against_parsed_type");
+                    if !all.is_empty() {
+                        out.violate(
+                            "record-for-pre-existing-item:type".to_string(),
+                            detail(json!({"issued": ops_json[k], "returned_type_id": ret[k].1, "types_in_parsed_module": n_base_types, "record": all[0].content})),
+                        );
+                    }
+                    continue;
+                }
+            }
             // a function built with a tag passes the tag to the type it creates, and the lowering of function-level / special probes may
             // create helper block types with the probe's tag: those are added items that carry the tag
             let helper_types: Vec<&&Rec> = all.iter().filter(|r| r.kind == "type" && kind != "type").collect();
             for h in &helper_types {
                 match &is.op {
+                    Op::Func { .. } if ret[k].1 < n_base_types => {
+                        // the function uses a type of the parsed module: that type is not an added item
+                        out.violate(
+                            "record-for-pre-existing-item:type-of-tagged-func".to_string(),
+                            detail(json!({"issued": ops_json[k], "type_id_of_function": ret[k].1, "types_in_parsed_module": n_base_types, "record": h.content})),
+                        );
+                    }
                     Op::Func { params, results, .. } => {
                         let want = format!("functype ({})->({}) super=None final=true shared=false", dts(params), dts(results));
                         if h.content != want {
@@ -829,7 +879,7 @@ impl C23 {
                 }
                 Op::Func { .. } | Op::Global { .. } | Op::LocalMem { .. } => {
                     // id ∈ {returned id, index in the output}: the output index is found through the unique content
-                    let caller = ret[k];
+                    let caller = ret[k].0;
                     let enc = match &is.op {
                         Op::Func { .. } => find_marker(&raw_b, is.uid).first().map(|(f, _)| raw_b.n_imp_funcs + *f as u32),
                         Op::LocalMem { initial, .. } => raw_b.memories.iter().position(|m| m.contains(&format!("initial: {}", initial))).map(|p| raw_b.n_imp_mems + p as u32),
